@@ -597,6 +597,11 @@ func (fr *Frame) contractCall(con *Contract, key string, sig *types.Signature, c
 					c.heapWritten(st)
 					continue
 				}
+				if _, isMap := under(ca.types[i]).(*types.Map); isMap && allowed(i) {
+					// the entries of a map argument may change (a map is a reference to its entries)
+					fr.havocObject(TV{T: t, Ty: ca.types[i]}, st)
+					continue
+				}
 				pt, ok := under(ca.types[i]).(*types.Pointer)
 				if !ok || !allowed(i) {
 					continue
